@@ -100,14 +100,14 @@ def exp_yd(n, info):
     return "%04d-%03d" % (y2, min(yd, 366 if R.is_leap(y2) else 365))
 
 
-EXP = {"ymd": exp_ymd, "ymcw": exp_ymcw, "bizda": exp_bizda, "ywd": exp_ywd, "yd": exp_yd}
+EXP = {"ymd": exp_ymd, "ymcw": exp_ymcw, "bizda": exp_bizda, "ywd": exp_ywd, "yd": exp_yd, "ymcw0": exp_ymcw}
 
 
 def _n_of_text(rep, t):
     """day number of a reference text in representation rep"""
     if rep == "ymd":
         return R.n_of(int(t[:4]), int(t[5:7]), int(t[8:10]))
-    if rep == "ymcw":
+    if rep in ("ymcw", "ymcw0"):
         return R.n_of_ymcw(int(t[:4]), int(t[5:7]), int(t[8:10]), int(t[11:13]))
     if rep == "bizda":
         return R.n_of_bizda(int(t[:4]), int(t[5:7]), int(t[8:10]))
@@ -146,7 +146,7 @@ def _nt(rep):
     def f(n, info):
         if rep == "ymd":
             return R.ymd(n)[2] >= 29
-        if rep == "ymcw":
+        if rep in ("ymcw", "ymcw0"):
             return R.ymcw(n)[2] == 5
         if rep == "bizda":
             return R.bizda(n)[2] >= 21
@@ -234,7 +234,8 @@ def months(ctx, shard, nshards):
         A.sweep(ctx, sub, V, rep, durs_y + comp_y, days, EXP[rep], _tag(rep), _nt(rep))
         A.sweep(ctx, sub, V, rep, then_y, days, exp_then_days(rep), _tag(rep), _nt(rep))
     # the cropped result printed in another calendar (a third of the steps per shard)
-    for rep, durs in (("ymd", durs_m + durs_y), ("ymcw", durs_m + durs_y), ("ywd", durs_y), ("yd", durs_y)):
+    for rep, durs in (("ymd", durs_m + durs_y), ("ymcw", durs_m + durs_y), ("ywd", durs_y), ("yd", durs_y),
+                      ("ymcw0", durs_m + durs_y)):
         outrep = "ywd" if rep == "ymd" else "ymd"
         A.sweep(ctx, sub, V, rep, durs[shard % 3::3], days, exp_other_cal(rep, outrep),
                 lambda info, t=_tag(rep), o=outrep: t(info) + ">" + o, _nt(rep), extra_args=("-f", outrep))
